@@ -1,11 +1,20 @@
 (* C14 -- host-range notation round-trips without changing any name (src/liblsd/hostlist.c).
    Theorems about the executable model PM.Model.HL (tied to the source by Gen/GenHL.v and the R-HL
-   correspondence), stated against the reference expansion PM.Spec.HLSpec.expand. *)
-From Coq Require Import List NArith ZArith Bool.
-From PM Require Import Base.Bytes Base.Outcome Gen.GenHL Model.HL Spec.HLSpec Proofs.HLArith Proofs.HLProofs.
+   correspondence), stated against the reference expansion PM.Spec.HLSpec.expand.
+
+   Vocabulary (Spec/HLSpec.v):  expand h = the list of names a range array denotes;  wf h = every numbered range is
+   non-empty and stays below ULONG_MAX (what every public operation produces);  small h = fewer than 2^31 names
+   (hostlist.c counts in int);  short h = every name fits hostlist_nth's 80-byte buffer;  suffix_small n = the trailing
+   digit run of n, read as a number, is at most MAX_HOST_SUFFIX (2^25).
+   Status of each clause of the property:   full = proved as stated;  refuted = false of the faithful model, witness
+   replayed on the C code (finding);  partial = proved for the stated sub-case, the missing part is spelled out. *)
+From Coq Require Import List NArith ZArith Bool Permutation.
+From PM Require Import Base.Bytes Base.Outcome Gen.GenHL Model.HL Spec.HLSpec Proofs.HLArith Proofs.HLProofs
+  Proofs.HLIndex Proofs.HLFind Proofs.HLCor Proofs.HLRound Proofs.HLSort Proofs.HLIter Proofs.HLClosure.
 Import ListNotations.
 Local Open Scope N_scope.
 
+(* ================================================================ arithmetic of zero padding *)
 (* _width_equiv: when it answers 1 the two widths are equal afterwards and no number at or above the one it was
    tested on changes its spelling (so rewriting a range's width on the evidence of its `lo` is safe) *)
 Theorem width_equiv_sound : forall n wn m wm wn' wm',
@@ -18,16 +27,16 @@ Example width_equiv_sound_nonvacuous : width_equiv 9 1 10 2 = Some (1%nat, 1%nat
 Proof. split; reflexivity. Qed.
 Print Assumptions width_equiv_sound.
 
-(* hostlist_push_host: the list denotes exactly one more name, the one pushed, whatever its spelling *)
+(* ================================================================ building lists *)
+(* hostlist_push_host: the list denotes exactly one more name, the one pushed, whatever its spelling  [full] *)
 Theorem C14_push : forall h n, wf h -> expand (push_host h n) = expand h ++ [n] /\ wf (push_host h n).
 Proof. exact HLProofs.push_host_sound. Qed.
 Example C14_push_nonvacuous :
-  expand (push_host (push_host (push_host [] (bs "t09"%string)) (bs "t10"%string)) (bs "foo"%string)) = [bs "t09"%string; bs "t10"%string; bs "foo"%string]
-  /\ length (push_host (push_host [] (bs "t09"%string)) (bs "t10"%string)) = 1%nat.
+  expand t09_10_foo = [bs "t09"%string; bs "t10"%string; bs "foo"%string] /\ length t09_10_foo = 2%nat.
 Proof. split; vm_compute; reflexivity. Qed.
 Print Assumptions C14_push.
 
-(* hostlist_push_list / hostlist_copy *)
+(* hostlist_push_list / hostlist_copy  [full] *)
 Theorem C14_push_list : forall a b, wf a -> wf b -> expand (push_list a b) = expand a ++ expand b /\ wf (push_list a b).
 Proof. exact HLProofs.push_list_sound. Qed.
 Example C14_push_list_nonvacuous :
@@ -39,3 +48,266 @@ Print Assumptions C14_push_list.
 Theorem C14_copy : forall h, expand (copy h) = expand h.
 Proof. reflexivity. Qed.
 Print Assumptions C14_copy.
+
+(* hostlist_push(hl, "expression") = hostlist_create + hostlist_push_list  [full, given a well-formed parse] *)
+Theorem C14_push_expr : forall h s n, wf h -> create s = Ok (Some n) -> wf n ->
+  exists h', push h s = Ok (Some h') /\ expand h' = expand h ++ expand n /\ wf h'.
+Proof. exact HLCor.push_expr_sound. Qed.
+Example C14_push_expr_nonvacuous :
+  omap (option_map expand) (push t09_10_foo (bs "n[1-2],x"%string))
+  = Ok (Some [bs "t09"%string; bs "t10"%string; bs "foo"%string; bs "n1"%string; bs "n2"%string; bs "x"%string]).
+Proof. vm_compute. reflexivity. Qed.
+Print Assumptions C14_push_expr.
+
+(* ================================================================ count, nth *)
+(* hostlist_count  [full] *)
+Theorem C14_count : forall h, wf h -> small h -> count h = Z.of_nat (length (expand h)).
+Proof. exact HLIndex.count_sound. Qed.
+Example C14_count_nonvacuous : wf t09_10_foo /\ small t09_10_foo /\ count t09_10_foo = 3%Z.
+Proof.
+  split; [apply (fold_push_host [bs "t09"%string; bs "t10"%string; bs "foo"%string] []); constructor|].
+  split; vm_compute; reflexivity.
+Qed.
+Print Assumptions C14_count.
+
+(* hostlist_nth: the i-th name of the expansion, NULL past the end  [full; `short`: the name fits the 80-byte buffer,
+   HRSTR_LIMIT from GenHL] *)
+Theorem C14_nth : forall h i, wf h -> short h -> small h -> nth h (Z.of_nat i) = Ok (nth_error (expand h) i).
+Proof. exact HLIndex.nth_sound. Qed.
+Theorem C14_nth_past_end : forall h i, wf h -> short h -> small h -> (length (expand h) <= i)%nat -> nth h (Z.of_nat i) = Ok None.
+Proof. exact HLCor.nth_past_end. Qed.
+Example C14_nth_nonvacuous : nth t09_10_foo 1 = Ok (Some (bs "t10"%string)) /\ nth t09_10_foo 3 = Ok None
+  /\ Forall short_range t09_10_foo.
+Proof. split; [vm_compute; reflexivity|]. split; [vm_compute; reflexivity|]. repeat constructor; vm_compute; discriminate. Qed.
+Print Assumptions C14_nth.
+Print Assumptions C14_nth_past_end.
+
+(* ================================================================ membership and index lookups *)
+(* the half that needs NO hypothesis on the name (what C01 relies on): a non-negative answer of hostlist_find is a
+   position of the expansion that holds exactly that name; the answer is -1 or in range; the list hostlist_find leaves
+   behind (it may rewrite width fields through _width_equiv) denotes the same names  [full] *)
+Theorem C14_find_sound : forall h n, wf h -> small h -> (0 <= find h n)%Z ->
+  nth_error (expand h) (Z.to_nat (find h n)) = Some n /\ In n (expand h).
+Proof. exact HLCor.find_sound_nth. Qed.
+Theorem C14_find_answer : forall h n, wf h -> small h ->
+  (find h n = -1 \/ 0 <= find h n < Z.of_nat (length (expand h)))%Z
+  /\ expand (snd (find_mut h n)) = expand h /\ wf (snd (find_mut h n)).
+Proof. exact HLCor.find_answer_range. Qed.
+Print Assumptions C14_find_sound.
+Print Assumptions C14_find_answer.
+
+(* hostlist_find = position of the first occurrence of exactly this name, -1 if absent  [full under suffix_small;
+   MAX_HOST_SUFFIX from GenHL] *)
+Theorem C14_find : forall h n, wf h -> small h -> suffix_small n -> find h n = index_of n (expand h).
+Proof. exact HLFind.find_complete. Qed.
+Theorem C14_member : forall h n, wf h -> small h -> suffix_small n -> ((0 <= find h n)%Z <-> In n (expand h)).
+Proof. exact HLCor.find_member_iff. Qed.
+(* ... where index_of is what it should be *)
+Theorem C14_index_of_meaning : forall n l,
+  (In n l -> exists i, index_of n l = Z.of_nat i /\ nth_error l i = Some n /\ forall j, (j < i)%nat -> nth_error l j <> Some n)
+  /\ (~ In n l -> index_of n l = (-1)%Z).
+Proof. exact HLCor.index_of_spec. Qed.
+(* a member that hostlist_find misses has a trailing digit run above MAX_HOST_SUFFIX: F11 is the only way to miss *)
+Theorem C14_find_miss_only_large_suffix : forall h n, wf h -> small h -> In n (expand h) -> find h n = (-1)%Z -> ~ suffix_small n.
+Proof. exact HLCor.find_miss_only_large_suffix. Qed.
+Print Assumptions C14_find_miss_only_large_suffix.
+(* zero padding is significant: foo01 is not foo1 *)
+Example C14_padding :
+  let h := push_host (push_host [] (bs "foo01"%string)) (bs "foo02"%string) in
+  suffix_small (bs "foo1"%string) /\ suffix_small (bs "foo01"%string) /\ length h = 1%nat
+  /\ In (bs "foo01"%string) (expand h) /\ find h (bs "foo1"%string) = (-1)%Z /\ find h (bs "foo01"%string) = 0%Z
+  /\ find h (bs "foo02"%string) = 1%Z /\ find h (bs "foo2"%string) = (-1)%Z /\ find h (bs "foo002"%string) = (-1)%Z.
+Proof. cbv zeta. repeat split; try (vm_compute; (reflexivity || discriminate)). vm_compute. now left. Qed.
+Print Assumptions C14_find.
+Print Assumptions C14_member.
+
+(* (* REFUTED *)  the hypothesis-free statement
+     Theorem C14_find_full : forall h n, wf h -> small h -> find h n = index_of n (expand h).
+   is false of the faithful model (finding F11): hostname_create declares a numeric suffix above MAX_HOST_SUFFIX invalid
+   while the bracket parser accepts it, so a member of a bracket range whose trailing digit run exceeds 2^25 is not
+   found.  Both witnesses are replayed on the C code on every run (corpus/C14/f11-*.case).  Effect: membership is
+   under-approximated (`no such nodes`), never a wrong node (C14_find_sound needs no hypothesis). *)
+Theorem C14_find_complete_refuted : exists h n, wf h /\ small h /\ In n (expand h) /\ find h n = (-1)%Z.
+Proof. exact HLFind.find_refuted. Qed.
+Theorem C14_find_complete_refuted_parsed : exists h n, create (bs "n[99999998-99999999]"%string) = Ok (Some h) /\
+  wf h /\ small h /\ In n (expand h) /\ find h n = (-1)%Z.
+Proof. exact HLCor.find_refuted_create. Qed.
+Theorem C14_find_complete_refuted_digit_prefix : exists h n, create (bs "n1[33554430-33554432]"%string) = Ok (Some h) /\
+  wf h /\ small h /\ In n (expand h) /\ find h n = (-1)%Z.
+Proof. exact HLCor.find_refuted_prefix_digit. Qed.
+Print Assumptions C14_find_complete_refuted.
+Print Assumptions C14_find_complete_refuted_parsed.
+Print Assumptions C14_find_complete_refuted_digit_prefix.
+
+(* ================================================================ deleting never adds, drops or renames any OTHER node *)
+(* hostlist_delete_nth  [full] *)
+Theorem C14_delete_nth : forall h i, wf h -> small h -> (i < length (expand h))%nat ->
+  exists h', delete_nth h (Z.of_nat i) = Ok h' /\ expand h' = remove_at i (expand h) /\ wf h'.
+Proof. exact HLIndex.delete_nth_sound. Qed.
+Theorem C14_delete_nth_others : forall h i, wf h -> small h -> (i < length (expand h))%nat ->
+  exists h' x, delete_nth h (Z.of_nat i) = Ok h' /\ wf h' /\ nth_error (expand h) i = Some x
+    /\ expand h = firstn i (expand h) ++ x :: skipn (S i) (expand h)
+    /\ expand h' = firstn i (expand h) ++ skipn (S i) (expand h).
+Proof. exact HLCor.delete_nth_others. Qed.
+Example C14_delete_nth_nonvacuous :
+  omap expand (delete_nth (push_host (push_host (push_host [] (bs "t1"%string)) (bs "t2"%string)) (bs "t3"%string)) 1)
+  = Ok [bs "t1"%string; bs "t3"%string].
+Proof. vm_compute. reflexivity. Qed.
+Print Assumptions C14_delete_nth.
+Print Assumptions C14_delete_nth_others.
+
+(* hostlist_delete_host: the first occurrence of exactly this name disappears (answer 1), or the name is absent and
+   nothing changes (answer 0)  [full under suffix_small, cf. F11] *)
+Theorem C14_delete_host : forall h n, wf h -> small h -> suffix_small n ->
+  exists r h', delete_host h n = Ok (r, h') /\ wf h' /\
+    ((In n (expand h) /\ r = 1%Z /\ expand h' = remove_at (Z.to_nat (index_of n (expand h))) (expand h))
+     \/ (~ In n (expand h) /\ r = 0%Z /\ expand h' = expand h)).
+Proof. exact HLFind.delete_host_sound. Qed.
+Theorem C14_delete_host_others : forall h n, wf h -> small h -> suffix_small n ->
+  exists r h', delete_host h n = Ok (r, h') /\ wf h' /\
+    ((r = 1%Z /\ exists a b, expand h = a ++ n :: b /\ ~ In n a /\ expand h' = a ++ b)
+     \/ (r = 0%Z /\ ~ In n (expand h) /\ expand h' = expand h)).
+Proof. exact HLCor.delete_host_others. Qed.
+Example C14_delete_host_nonvacuous :
+  let h := push_host (push_host (push_host [] (bs "t1"%string)) (bs "t2"%string)) (bs "t3"%string) in
+  omap (fun p => (fst p, expand (snd p))) (delete_host h (bs "t2"%string)) = Ok (1%Z, [bs "t1"%string; bs "t3"%string])
+  /\ omap (fun p => (fst p, expand (snd p))) (delete_host h (bs "t02"%string)) = Ok (0%Z, [bs "t1"%string; bs "t2"%string; bs "t3"%string])
+  /\ suffix_small (bs "t2"%string).
+Proof. cbv zeta. repeat split; vm_compute; (reflexivity || discriminate). Qed.
+Print Assumptions C14_delete_host.
+Print Assumptions C14_delete_host_others.
+
+(* ================================================================ compress, then expand *)
+(* hostlist_create (hostlist_ranged_string h) succeeds and denotes the same names in the same order  [full under the
+   boolean guard HLRound.printable: prefixes free of the separators GenHL.separators and of '[' ']'; plain names non-empty
+   and shorter than CUR_TOK_COPY; numbered ranges non-empty, below ULONG_MAX, spanning fewer than MAX_RANGE numbers,
+   first name shorter than CUR_TOK_COPY; at most RANGES_LEN_ARG ranges.  ranged_string = the text
+   _xhostlist_ranged_string returns (buffer large enough); text contains no NUL] *)
+Theorem C14_roundtrip : forall h, printable h = true ->
+  exists h', create (ranged_string h) = Ok (Some h') /\ expand h' = expand h /\ wf h'.
+Proof. exact HLRound.roundtrip. Qed.
+Example C14_roundtrip_nonvacuous :
+  printable t09_10_foo = true /\ ranged_string t09_10_foo = bs "t[09-10],foo"%string
+  /\ omap (option_map expand) (create (ranged_string t09_10_foo)) = Ok (Some [bs "t09"%string; bs "t10"%string; bs "foo"%string]).
+Proof. repeat split; vm_compute; reflexivity. Qed.
+Print Assumptions C14_roundtrip.
+
+(* the same with the guard stated on the NAMES alone, for any well-formed list however it was built *)
+Theorem C14_roundtrip_names : forall h, wf h -> Forall (fun n => legal n = true) (expand h) ->
+  N.of_nat (length (expand h)) <= GenHL.MAX_RANGE -> N.of_nat (length (expand h)) <= GenHL.RANGES_LEN_ARG ->
+  exists h', create (ranged_string h) = Ok (Some h') /\ expand h' = expand h /\ wf h'.
+Proof. exact HLRound.roundtrip_names. Qed.
+Print Assumptions C14_roundtrip_names.
+
+(* "for any list of node names, compressing it into host-range notation and expanding the result yields the same
+   names in the same order"  [full for at most min(MAX_RANGE, RANGES_LEN_ARG) = 10240 legal names] *)
+Theorem C14_compress_expand : forall ns, Forall (fun n => legal n = true) ns ->
+  N.of_nat (length ns) <= GenHL.MAX_RANGE -> N.of_nat (length ns) <= GenHL.RANGES_LEN_ARG ->
+  exists h', create (ranged_string (fold_left push_host ns [])) = Ok (Some h') /\ expand h' = ns /\ wf h'.
+Proof. exact HLRound.compress_expand. Qed.
+Example C14_compress_expand_nonvacuous :
+  let ns := [bs "t09"%string; bs "t10"%string; bs "t11"%string; bs "foo"%string; bs "n1"%string; bs "n3"%string; bs "a1b2"%string] in
+  Forall (fun n => legal n = true) ns /\ ranged_string (fold_left push_host ns []) = bs "t[09-11],foo,n[1,3],a1b2"%string.
+Proof. cbv zeta. split; [repeat constructor|vm_compute; reflexivity]. Qed.
+Print Assumptions C14_compress_expand.
+
+(* expanded notation a,b,c (no brackets) denotes exactly the names written *)
+Theorem C14_expanded_notation : forall ns, Forall (fun n => legal n = true) ns ->
+  exists h', create (join_commas ns) = Ok (Some h') /\ expand h' = ns /\ wf h'.
+Proof. exact HLRound.create_plain_list. Qed.
+Example C14_expanded_notation_nonvacuous :
+  omap (option_map expand) (create (bs "t2,t1,foo01"%string)) = Ok (Some [bs "t2"%string; bs "t1"%string; bs "foo01"%string]).
+Proof. vm_compute. reflexivity. Qed.
+Print Assumptions C14_expanded_notation.
+
+(* "hence the targets typed at the CLI, the targets the daemon acts on and the node sets printed in replies always
+   denote the same nodes": client compresses the typed names, daemon expands and acts, daemon compresses the reply,
+   reader expands it -- every hop denotes the same names in the same order  [full for <= 10240 legal names] *)
+Theorem C14_three_hops : forall ns, Forall (fun n => legal n = true) ns ->
+  N.of_nat (length ns) <= GenHL.MAX_RANGE -> N.of_nat (length ns) <= GenHL.RANGES_LEN_ARG ->
+  exists cli daemon reply,
+    create (join_commas ns) = Ok (Some cli) /\ expand cli = ns /\
+    create (ranged_string cli) = Ok (Some daemon) /\ expand daemon = ns /\
+    create (ranged_string daemon) = Ok (Some reply) /\ expand reply = ns.
+Proof. exact HLRound.three_hops. Qed.
+Print Assumptions C14_three_hops.
+
+(* (* REFUTED *)  without the bound on the number of names the statement
+     Theorem C14_roundtrip_full : forall h, wf h -> Forall (fun n => legal n = true) (expand h) ->
+       exists h', create (ranged_string h) = Ok (Some h') /\ expand h' = expand h.
+   is false of the faithful model (finding F35): pushes join a run of more than MAX_RANGE consecutively numbered names into one range,
+   which prints as prefix[lo-hi] and is refused by _parse_single_range (hi - lo >= MAX_RANGE).  Replayed on the C code
+   (corpus/C14/roundtrip-run-above-max-range.case).  Effect: refusal (NULL), never a different name. *)
+Theorem C14_roundtrip_refuted_long_run : exists h h0,
+  create (bs "t[1-16384]"%string) = Ok (Some h0) /\ h = push_host h0 (bs "t16385"%string) /\
+  wf h /\ small h /\ length h = 1%nat /\ N.of_nat (length (expand h)) = GenHL.MAX_RANGE + 1 /\
+  create (ranged_string h) = Ok None.
+Proof. exact HLRound.roundtrip_refuted_long_run. Qed.
+Print Assumptions C14_roundtrip_refuted_long_run.
+
+(* ================================================================ sorting never adds, drops or renames a node *)
+(* hostlist_sort = qsort(hostrange_cmp) + hostlist_coalesce + hostlist_collapse; qsort modelled as the insertion sort the
+   harness substitutes for libc's (the comparator rewrites width fields).
+   [partial]  proved: whenever the model's sort returns, the names are a permutation of the names before.
+   also proved: sort never aborts (F36, fixed: the assert of hostrange_intersect fired on t01,t[9-10],t[9-10]).
+   (* OPEN *)  Theorem C14_sort : forall h, wf h -> small h -> (all numbers <= MAX_HOST_SUFFIX) -> exists h', sort h = Ok h'
+                                   /\ Permutation (expand h') (expand h) /\ name_sorted (expand h').
+     missing: that sort returns Ok, i.e. (a) termination of the coalesce restart loop within the model's 2^40 trips,
+     (b) that the use-after-free site of hostlist_coalesce (hostrange_empty(hprev), reachable only when two `lo` values are
+     2^31 or more apart so that hostrange_cmp's int result wraps, e.g. n[3000000000,1]) is unreachable for numbers below 2^31,
+     and sortedness of the result; all three are exercised by R-HL and the monitor (clause sort_returns) only. *)
+Theorem C14_sort_partial : forall h h', wf h -> sort h = Ok h' -> Permutation (expand h') (expand h) /\ wf h'.
+Proof. exact HLSort.sort_permutation. Qed.
+Example C14_sort_nonvacuous :
+  let h := fold_left push_host [bs "t3"%string; bs "t1"%string; bs "foo"%string; bs "t2"%string; bs "t1"%string] [] in
+  omap expand (sort h) = Ok [bs "foo"%string; bs "t1"%string; bs "t1"%string; bs "t2"%string; bs "t3"%string].
+Proof. vm_compute. reflexivity. Qed.
+Print Assumptions C14_sort_partial.
+(* F36 (fixed in /repo 5823278): the order check of hostrange_intersect is an `if`, no longer an assert
+   (GenHL.INTERSECT_ORDER_CHECK = 1): sorting never aborts; the former witness (a name listed twice next to a zero-padded
+   name of another width) now sorts to the same multiset of names *)
+Theorem C14_sort_no_abort : forall h site, sort h <> Abort site.
+Proof. exact HLSort.sort_no_abort. Qed.
+Example C14_sort_former_abort_witness :
+  bind (create (bs "t01,t[9-10],t[9-10]"%string)) (fun o => match o with Some h => omap expand (sort h) | None => Ok [] end)
+  = Ok [bs "t9"%string; bs "t9"%string; bs "t10"%string; bs "t10"%string; bs "t01"%string].
+Proof. exact HLSort.sort_former_abort_witness. Qed.
+Print Assumptions C14_sort_no_abort.
+
+(* ================================================================ iterators (how the daemon walks a list) *)
+(* hostlist_iterator_create / _reset + hostlist_next until NULL yields exactly the expansion, in order  [full; iter_ok:
+   the printed number of every numbered range has at most NEXT_SUFFIX_LIMIT - 1 = 14 characters (wider is silently
+   truncated by the snprintf into suffix[16] -- modelled, excluded here)] *)
+Theorem C14_iterate : forall h, wf h -> Forall iter_ok h -> iterate h = Ok (expand h).
+Proof. exact HLIter.iterate_sound. Qed.
+Example C14_iterate_nonvacuous :
+  iterate t09_10_foo = Ok [bs "t09"%string; bs "t10"%string; bs "foo"%string] /\ Forall iter_ok t09_10_foo.
+Proof. split; [vm_compute; reflexivity|]. repeat constructor; intros _; vm_compute; repeat constructor. Qed.
+Print Assumptions C14_iterate.
+
+(* the pattern of conf_exp_aliases -- iterate; on a match hostlist_delete_host; hostlist_iterator_reset; iterate again:
+   after the deletion the iterator yields exactly the remaining names, in order (the side condition iter_ok survives
+   hostlist_find's width rewriting and the range splitting of hostlist_delete_nth)  [full under suffix_small] *)
+Theorem C14_delete_host_then_iterate : forall h n, wf h -> small h -> suffix_small n -> Forall iter_ok h ->
+  exists r h', delete_host h n = Ok (r, h') /\ iterate h' = Ok (expand h') /\
+    ((In n (expand h) /\ r = 1%Z /\ expand h' = remove_at (Z.to_nat (index_of n (expand h))) (expand h))
+     \/ (~ In n (expand h) /\ r = 0%Z /\ expand h' = expand h)).
+Proof. exact HLClosure.delete_host_then_iterate. Qed.
+Theorem C14_delete_nth_then_nth : forall h i j, wf h -> small h -> short h -> (i < length (expand h))%nat ->
+  exists h', delete_nth h (Z.of_nat i) = Ok h' /\ nth h' (Z.of_nat j) = Ok (nth_error (remove_at i (expand h)) j).
+Proof. exact HLClosure.delete_nth_then_nth. Qed.
+Example C14_delete_host_then_iterate_nonvacuous :
+  let h := fold_left push_host [bs "t1"%string; bs "t2"%string; bs "t3"%string; bs "foo"%string] [] in
+  bind (delete_host h (bs "t2"%string)) (fun p => iterate (snd p)) = Ok [bs "t1"%string; bs "t3"%string; bs "foo"%string].
+Proof. vm_compute. reflexivity. Qed.
+Print Assumptions C14_delete_host_then_iterate.
+Print Assumptions C14_delete_nth_then_nth.
+
+(* ================================================================ hostlist_create never hangs (F33, fixed) *)
+Theorem C14_create_no_hang : forall s site, create s <> Hang site.
+Proof. exact HLSort.create_no_hang. Qed.
+Example C14_create_saturated_bound :
+  omap (option_map expand) (create (bs "t[18446744073709551615]x"%string)) = Ok (Some [bs "t18446744073709551615x"%string])
+  /\ omap (option_map expand) (create (bs "t[99999999999999999999]-ib"%string)) = Ok (Some [bs "t18446744073709551615-ib"%string]).
+Proof. split; vm_compute; reflexivity. Qed.
+Print Assumptions C14_create_no_hang.
